@@ -3,7 +3,8 @@
 `Injector(plan)` patches a fixed list of effect sites with counting wrappers. With plan=None it
 records the dynamic sequence of effects; with plan={index: kind} the effect with that dynamic
 index fails: kind "raise" raises before the effect, kind "torn" (file writes only) lets half of
-the bytes through and raises afterwards.
+the bytes through and raises afterwards; "interrupt" raises KeyboardInterrupt, "memory" MemoryError,
+"kill" / "tornkill" end the process with os._exit(137) at the effect.
 """
 
 from __future__ import annotations
@@ -44,6 +45,16 @@ SITES = [
     ("eko.runner.operators", "join", "operators.join", False),
     ("eko.runner.operators", "retrieve", "operators.retrieve", False),
     ("eko.runner.recipes", "create", "recipes.create", False),
+]
+# Further sites, NOT intercepted by default (the list above and the dynamic numbering it produces stay as they are for
+# every existing user): pass `extra_sites=SITES_EXT` to Injector. End-of-archive blocks of a tar (ENOSPC shows up here),
+# unpacking of the archive under edit, removal of the fresh temp dir in EKO.deepcopy, removal of the working directory
+# in EKO.close (for a writeable EKO this is the clean-up after the commit).
+SITES_EXT = [
+    ("tarfile", "TarFile.close", "TarFile.close", True),
+    ("tarfile", "TarFile.extractall", "TarFile.extractall", True),
+    ("pathlib", "Path.rmdir", "Path.rmdir", True),
+    ("shutil", "rmtree", "shutil.rmtree", True),
 ]
 # modules whose global name `open` is shadowed by a wrapper (file open-for-write + write)
 OPEN_MODULES = ["eko.io.inventory", "eko.io.metadata", "eko.io.struct", "ekobox.utils", "ekobox.cards"]
@@ -104,6 +115,9 @@ class Injector:
             if kind == "interrupt":
                 # an interruption that is not an Exception (Ctrl-C, sys.exit, task cancellation)
                 raise KeyboardInterrupt(f"injected interrupt at {label}")
+            if kind == "memory":
+                # an Exception that is neither an OSError nor a RuntimeError (allocation failure in an array step)
+                raise MemoryError(f"injected allocation failure at {label}")
             if kind == "kill":
                 # crash of the process at this point: no exception handler, no finaliser runs
                 import os
